@@ -66,20 +66,23 @@ def run(path):
             events, module = s.events, "Trace_Fx"
         elif kind == "store":
             import store_checks
-            if e["ev"] == "save":
-                ne = store_checks.run_save(e["table"], e["config"], e["opts"], e["rollup"]["asked"])
+            if e["ev"] in ("save", "agg"):
+                evs = store_checks.replay_event(e)
+                for k, ne in enumerate(evs):
+                    print("now:", json.dumps({x: ne[x] for x in ne if x not in ("names", "table", "config", "hist")})[:800], ne.get("msg", ""))
+                    ne.pop("msg", None)
+                    ne["id"], ne["sess"] = k + 1, 1
+                events, module = evs, "Trace_Store"
             else:
                 import qcexec  # noqa: F401
                 from ioos_qc.utils import cf_safe_name
-                ne = {"ev": "cfsafe", "raw": e["raw"], "out": [], "exc": ""}
+                ne = {"ev": "cfsafe", "raw": e["raw"], "out": [], "exc": "", "id": 1, "sess": 0}
                 try:
                     ne["out"] = list(cf_safe_name("".join(e["raw"])))
                 except Exception as ex:  # noqa: BLE001
                     ne["exc"] = type(ex).__name__
-            print("now:", json.dumps({k: ne[k] for k in ne if k not in ("names", "table", "config")})[:800], ne.get("msg", ""))
-            ne.pop("msg", None)
-            ne["id"] = 1
-            events, module = [ne], "Trace_Store"
+                print("now:", json.dumps(ne)[:800])
+                events, module = [ne], "Trace_Store"
         else:
             import config_checks
             ne = config_checks.load_event(e["cfg"], e["layout"], e["carrier"], tlc.workdir("replay_cfg"), 0)
